@@ -651,6 +651,10 @@ def cond_facts(c, truth):
             if xop in ("<", "<=", "=="):
                 return [Fact(xop, x, u), Fact(">=", x, mkint(0))]
             return []
+        if op == "!=" and cval(sk(r)) == 0 and _unsigned_int(l):
+            return [Fact(op, l, r), Fact(">=", l, mkint(1))]        # an unsigned value other than 0
+        if op == "!=" and cval(sk(l)) == 0 and _unsigned_int(r):
+            return [Fact(op, l, r), Fact(">=", r, mkint(1))]
         return [Fact(op, l, r)]
     if k == "Bin" and c["op"] == "&&":
         if truth:
@@ -666,7 +670,15 @@ def cond_facts(c, truth):
     if k == "Int":
         return []
     v = _val(c)
+    if truth and _unsigned_int(v):
+        return [Fact("!=", v, mkint(0)), Fact(">=", v, mkint(1))]
     return [Fact("!=" if truth else "==", v, mkint(0))]
+
+
+def _unsigned_int(e):
+    t = (sk(e) or {}).get("t") or {}
+    return t.get("k") == "int" and t.get("signed") is False and (t.get("bits") or 0) >= 8 and is_pure(sk(e)) and \
+        sk(e).get("k") in ("Ref", "Mem", "Sub")
 
 
 def _val(e):
@@ -1491,6 +1503,10 @@ class Engine:
                     if cval(a_) is not None:
                         bound = mkint(cval(a_) + k)
                 extra.append(Imp(term, ">", 0, Fact("<=", sk(term), bound)))
+        if call.get("fn") == "recvmsg":
+            cap = _recvmsg_capacity(caller, call)
+            if cap is not None:
+                extra.append(Imp(term, ">", 0, Fact("<=", sk(term), mkint(cap))))
         if tgt is None:
             return extra
         args = call.get("a", [])
@@ -1512,6 +1528,38 @@ class Engine:
                     continue
                 out.append(Imp(term, relop, c, subst_fact(f, mapping)))
         return out
+
+
+def _recvmsg_capacity(f, call):
+    """recvmsg(fd, &msg, ..) returns at most the sum of the iov lengths: the constant C when the function sets, once each
+    and with nothing else writing those fields, msg.msg_iov = &iov, msg.msg_iovlen = 1 and iov.iov_len = C."""
+    args = call.get("a", [])
+    if len(args) < 2:
+        return None
+    m = sk(args[1])
+    if not (m.get("k") == "Un" and m["op"] == "&" and sk(m["a"][0]).get("k") == "Ref"):
+        return None
+    mk_ = pp(sk(m["a"][0]))
+    asg = {}
+    for b, x in f.all_nodes():
+        if x.get("k") == "Bin" and x["op"] in ASSIGN_OPS:
+            asg.setdefault(pp(sk(x["a"][0])), []).append(x)
+        elif x.get("k") == "Un" and x["op"] == "&" and x is not m:
+            t = pp(sk(x["a"][0]))
+            if t == mk_ and x.get("n") != m.get("n"):
+                asg.setdefault("&" + mk_, []).append(x)
+    iovs = asg.get(mk_ + ".msg_iov", [])
+    lens = asg.get(mk_ + ".msg_iovlen", [])
+    if len(iovs) != 1 or len(lens) != 1 or iovs[0]["op"] != "=" or cval(sk(lens[0]["a"][1])) != 1:
+        return None
+    iv = sk(iovs[0]["a"][1])
+    if not (iv.get("k") == "Un" and iv["op"] == "&" and sk(iv["a"][0]).get("k") == "Ref"):
+        return None
+    ik = pp(sk(iv["a"][0]))
+    il = asg.get(ik + ".iov_len", [])
+    if len(il) != 1 or il[0]["op"] != "=":
+        return None
+    return cval(sk(il[0]["a"][1]))
 
 
 def _rvars_many(es):
